@@ -341,19 +341,46 @@ static void do_linear(uint64_t &caseno) {
     }
     {
       lexp_t ng = -e1;
-      std::map<var_t, var_t> ren; // swap x and y through a renaming map
-      ren.insert({x, y});
-      ren.insert({y, x});
-      lexp_t r = e1.rename(ren);
-      std::map<var_t, var_t> ren2;
-      ren2.insert({x, z}); // x -> z, then evaluate z as x
       for (ll vx = -B; vx <= B; vx++)
         for (ll vy = -B; vy <= B; vy++) {
-          vp::stat("evaluations", 2);
+          vp::stat("evaluations");
           if (!(eval(ng, x, y, vx, vy) == -value(L[i], vx, vy)))
             vp::viol("linear.neg:wrong", spec, show_e(e1));
-          if (!(eval(r, x, y, vy, vx) == value(L[i], vx, vy)))
-            vp::viol("linear.rename:wrong", spec, show_e(e1) + " renamed to " + show_e(r));
+        }
+      // renaming: every (partial, possibly non-injective) map from {x,y} to
+      // {x,y,z}: eval(rename(e,m), rho) == eval(e, rho o m)
+      var_t tgt[3] = {x, y, z};
+      const char *tn[4] = {"x", "y", "z", "-"};
+      for (int mx = 0; mx < 4; mx++)
+        for (int my = 0; my < 4; my++) {
+          std::map<var_t, var_t> ren;
+          if (mx < 3) ren.insert({x, tgt[mx]});
+          if (my < 3) ren.insert({y, tgt[my]});
+          lexp_t r = e1.rename(ren);
+          lcst_t rc = lcst_t(e1, lcst_t::INEQUALITY).rename(ren);
+          vp::stat("transitions");
+          for (ll vx = -2; vx <= 2; vx++)
+            for (ll vy = -2; vy <= 2; vy++)
+              for (ll vz = -2; vz <= 2; vz++) {
+                ll val[3] = {vx, vy, vz};
+                ll sx = mx < 3 ? val[mx] : vx, sy = my < 3 ? val[my] : vy;
+                vp::stat("evaluations");
+                z_number got = r.constant();
+                for (auto it = r.begin(); it != r.end(); ++it) {
+                  auto kv = *it;
+                  std::string nm = kv.second.name().str();
+                  got = got + kv.first * z_number((long)(nm == "x" ? vx : nm == "y" ? vy : vz));
+                }
+                z_number gotc = rc.expression().constant();
+                for (auto it = rc.begin(); it != rc.end(); ++it) {
+                  auto kv = *it;
+                  std::string nm = kv.second.name().str();
+                  gotc = gotc + kv.first * z_number((long)(nm == "x" ? vx : nm == "y" ? vy : vz));
+                }
+                if (!(got == value(L[i], sx, sy)) || !(gotc == value(L[i], sx, sy)))
+                  vp::viol("linear.rename:wrong", spec,
+                           show_e(e1) + " renamed with {x->" + tn[mx] + ", y->" + tn[my] + "} = " + show_e(r));
+              }
         }
     }
     // constraints of every kind over e1: negate is the exact complement;
